@@ -246,6 +246,73 @@ class Program:
                 if ok and stmts is not None:
                     cms[cn.name] = (params, fields, stmts)
         prog = self
+        # (1b) generator context managers: `@contextmanager def g(p, q=d): PRE;
+        # yield [x]; POST` (one top-level yield, no try) - `with g(a): BODY` is
+        # PRE; BODY; POST with the parameters replaced by the (simple) arguments
+        gens = {}
+        for m in self.modules.values():
+            for fn in m.tree.body:
+                if not isinstance(fn, ast.FunctionDef) or not any(
+                        ast.unparse(d).split(".")[-1] == "contextmanager"
+                        for d in fn.decorator_list):
+                    continue
+                body = [st for st in fn.body if not (
+                    isinstance(st, ast.Expr) and isinstance(st.value, ast.Constant))]
+                ys = [i for i, st in enumerate(body) if isinstance(st, ast.Expr)
+                      and isinstance(st.value, ast.Yield)]
+                deep = [y for y in ast.walk(fn) if isinstance(y, (ast.Yield, ast.YieldFrom))]
+                a_ = fn.args
+                if len(ys) == 1 and len(deep) == 1 and not a_.vararg and not a_.kwarg \
+                        and not a_.kwonlyargs and not any(
+                            isinstance(r, ast.Return) for r in ast.walk(fn)):
+                    gens[fn.name] = (fn, body[:ys[0]], body[ys[0] + 1:])
+
+        def inline_gen(n):
+            c = n.items[0].context_expr
+            fn, pre, post = gens[c.func.id]
+            params = [x.arg for x in fn.args.args]
+            defaults = dict(zip(params[len(params) - len(fn.args.defaults):],
+                                fn.args.defaults))
+            amap = {}
+            for p_, a in zip(params, c.args):
+                amap[p_] = a
+            for k in c.keywords:
+                if k.arg is None or k.arg not in params:
+                    return None
+                amap[k.arg] = k.value
+            for p_ in params:
+                if p_ not in amap:
+                    if p_ not in defaults:
+                        return None
+                    amap[p_] = defaults[p_]
+
+            def simple(e):
+                return isinstance(e, (ast.Name, ast.Constant)) or (
+                    isinstance(e, ast.Attribute) and simple(e.value)) or (
+                    isinstance(e, ast.UnaryOp) and simple(e.operand))
+            if not all(simple(v) for v in amap.values()):
+                return None
+            # parameters must not be re-bound in the generator
+            if any(isinstance(t, ast.Name) and t.id in params
+                   for st in pre + post for a_ in ast.walk(st)
+                   if isinstance(a_, ast.Assign) for t in a_.targets):
+                return None
+
+            class S(ast.NodeTransformer):
+                def visit_Name(self, nn):
+                    if nn.id in amap and isinstance(nn.ctx, ast.Load):
+                        return ast.copy_location(copy.deepcopy(amap[nn.id]), nn)
+                    return nn
+
+            def part(stmts, at):
+                out = []
+                for st in stmts:
+                    st2 = S().visit(copy.deepcopy(st))
+                    for x in ast.walk(st2):
+                        ast.copy_location(x, at)
+                    out.append(ast.fix_missing_locations(st2))
+                return out
+            return part(pre, n) + n.body + part(post, n.body[-1])
 
         class Inline(ast.NodeTransformer):
             def visit_With(self, n):
@@ -253,6 +320,15 @@ class Program:
                 if len(n.items) != 1 or n.items[0].optional_vars is not None:
                     return n
                 c = n.items[0].context_expr
+                if isinstance(c, ast.Call) and isinstance(c.func, ast.Name) and \
+                        c.func.id in gens:
+                    r_ = inline_gen(n)
+                    return r_ if r_ is not None else n
+                # `with self._guard():` where the method only returns CM(...)
+                if isinstance(c, ast.Call) and isinstance(c.func, ast.Attribute) and \
+                        isinstance(c.func.value, ast.Name) and not c.args and \
+                        not c.keywords and c.func.attr in factories:
+                    c = factories[c.func.attr]
                 if not (isinstance(c, ast.Call) and isinstance(c.func, ast.Name) and
                         c.func.id in cms and not c.keywords):
                     return n
@@ -271,6 +347,35 @@ class Program:
                         return a
                 def mk_tail(at):
                     tail = [Sub().visit(copy.deepcopy(st)) for st in stmts]
+                    # `owner, counter = <self>, "<k>"` : plain copies are propagated
+                    env_ = {}
+                    kept = []
+
+                    class P(ast.NodeTransformer):
+                        def visit_Name(self, nn):
+                            if isinstance(nn.ctx, ast.Load) and nn.id in env_:
+                                return ast.copy_location(copy.deepcopy(env_[nn.id]), nn)
+                            return nn
+                    for st in tail:
+                        st = P().visit(st)
+                        if isinstance(st, ast.Assign) and len(st.targets) == 1:
+                            tg, vv = st.targets[0], st.value
+                            pairs = None
+                            if isinstance(tg, ast.Name) and isinstance(
+                                    vv, (ast.Name, ast.Constant)):
+                                pairs = [(tg, vv)]
+                            elif isinstance(tg, ast.Tuple) and isinstance(vv, ast.Tuple) \
+                                    and len(tg.elts) == len(vv.elts) and all(
+                                        isinstance(a_, ast.Name) and
+                                        isinstance(b_, (ast.Name, ast.Constant))
+                                        for a_, b_ in zip(tg.elts, vv.elts)):
+                                pairs = list(zip(tg.elts, vv.elts))
+                            if pairs is not None:
+                                for a_, b_ in pairs:
+                                    env_[a_.id] = b_
+                                continue
+                        kept.append(st)
+                    tail = kept
                     for t in tail:
                         for x in ast.walk(t):
                             ast.copy_location(x, at)
@@ -299,8 +404,27 @@ class Program:
                 body = with_returns(n.body)
                 return body + mk_tail(n.body[-1])
 
+        # methods `def _guard(self): return CM(self, "k")` (unique by name)
+        factories = {}
+        dup = set()
         for m in self.modules.values():
-            if cms and any(isinstance(w, ast.With) for w in ast.walk(m.tree)):
+            for fn in ast.walk(m.tree):
+                if isinstance(fn, ast.FunctionDef) and len(fn.args.args) == 1 and \
+                        fn.name.startswith("_"):
+                    body = [st for st in fn.body if not (
+                        isinstance(st, ast.Expr) and isinstance(st.value, ast.Constant))]
+                    if len(body) == 1 and isinstance(body[0], ast.Return) and \
+                            isinstance(body[0].value, ast.Call) and \
+                            isinstance(body[0].value.func, ast.Name) and \
+                            body[0].value.func.id in cms and \
+                            fn.args.args[0].arg == "self":
+                        if fn.name in factories:
+                            dup.add(fn.name)
+                        factories[fn.name] = body[0].value
+        for d_ in dup:
+            factories.pop(d_, None)
+        for m in self.modules.values():
+            if (cms or gens) and any(isinstance(w, ast.With) for w in ast.walk(m.tree)):
                 m.tree = Inline().visit(m.tree)
                 ast.fix_missing_locations(m.tree)
             # property(getter, setter)
@@ -418,6 +542,24 @@ class Program:
                         return UNKNOWN
                     out.append(v)
             return tuple(out)
+        if isinstance(e, ast.Dict):
+            out = {}
+            for k_, v_ in zip(e.keys, e.values):
+                if k_ is None:
+                    return UNKNOWN
+                kv, vv = rec(k_), rec(v_)
+                if kv is UNKNOWN or vv is UNKNOWN or isinstance(kv, (dict, list)):
+                    return UNKNOWN
+                out[kv] = vv
+            return out
+        if isinstance(e, ast.Subscript):
+            base, key = rec(e.value), rec(e.slice)
+            if base is UNKNOWN or key is UNKNOWN:
+                return UNKNOWN
+            try:
+                return base[key]
+            except Exception:
+                return UNKNOWN
         if isinstance(e, ast.BinOp) and isinstance(e.op, ast.Add):
             a, b = rec(e.left), rec(e.right)
             if isinstance(a, str) and isinstance(b, str):
@@ -989,7 +1131,7 @@ def const_of(node, env, b=None):
     """Constant value of an expression under env, or UNKNOWN.  With a builder
     `b`, class-level / module-level constants and `+` on strings are folded."""
     if b is not None and isinstance(node, (ast.Attribute, ast.BinOp, ast.JoinedStr,
-                                           ast.Name)) and \
+                                           ast.Name, ast.Subscript)) and \
             not (isinstance(node, ast.Name) and node.id in env):
         # only *constants by convention* (UPPER_CASE class / module names holding
         # strings) are folded: an instance attribute may shadow anything else
@@ -1395,6 +1537,33 @@ class _Builder:
                 else:
                     self.env[st.target.id] = saved
                 return seq(outs)
+            # for key, name, opt in <constant table of tuples>: unrolled with every
+            # target bound to its constant
+            if isinstance(st.target, ast.Tuple) and not st.orelse and all(
+                    isinstance(x, ast.Name) for x in st.target.elts) and \
+                    isinstance(st.iter, (ast.Attribute, ast.Name)):
+                ok_name = all(a.attr == a.attr.upper() for a in ast.walk(st.iter)
+                              if isinstance(a, ast.Attribute)) and all(
+                    a.id == a.id.upper() or a.id in ("self", "cls") or a.id in self.p.classes
+                    for a in ast.walk(st.iter) if isinstance(a, ast.Name))
+                tab = self.p.static_value(st.iter, self.cls, self.f.module, None) \
+                    if ok_name else UNKNOWN
+                if isinstance(tab, tuple) and 0 < len(tab) <= 16 and all(
+                        isinstance(r, tuple) and len(r) == len(st.target.elts) and all(
+                            isinstance(c_, _HASHABLE_CONST) for c_ in r) for r in tab):
+                    names_ = [x.id for x in st.target.elts]
+                    outs = [self.expr(st.iter)]
+                    saved = {k: self.env.get(k, UNKNOWN) for k in names_}
+                    for row in tab:
+                        for k, v in zip(names_, row):
+                            self.env[k] = v
+                        outs.append(self.block(st.body))
+                    for k, sv in saved.items():
+                        if sv is UNKNOWN:
+                            self.env.pop(k, None)
+                        else:
+                            self.env[k] = sv
+                    return seq(outs)
             # for step in (self.a, self.b): step(...)  - unrolled with the
             # loop variable standing for each bound method in turn
             if isinstance(st.iter, (ast.Tuple, ast.List)) and st.iter.elts and \
